@@ -234,7 +234,7 @@ _EL = {
     "C12": "the trades each execution emitted; no step fails on a solvent, fully quoted account",
     "C07": "both Context snapshots of every record entry, one entry per executed decision, the PnL reward of every step",
     "C08": "the executed request is the action submitted `delay` steps earlier; every quote delivered before / after an execution "
-           "lies inside / outside the latency window",
+           "lies inside / outside the latency window; Box spaces and Discrete menus whose entry 0 (the null action) is not flat",
     "C13": "with quotes that lose a side and discontinuations in a third of the episodes: a rebalance inside step() fails iff the "
            "specification's does, and a failed one leaves positions and record as they were",
     "C15": "done is reported exactly on the episode's last timestep, over two folds whose bounds lie less than a microsecond from "
